@@ -115,6 +115,13 @@ func c13Bam(r *core.Result, c core.Case) {
 		return
 	}
 	defer br.Close()
+	// One case in three has a block cache on the reader: the property does
+	// not mention caches, and a transparent cache (C03) cannot change it.
+	if ck := rng.Intn(9); ck < 3 {
+		br.SetCache(mkCache(ck, 1+rng.Intn(6), len(f.Blocks)))
+		cfg += fmt.Sprintf(" cache-kind=%d", ck)
+		r.Count("bam_cases_with_cache", 1)
+	}
 	h2 := br.Header()
 	var chunks []bgzf.Chunk
 	for i := 0; i < nrec; i++ {
@@ -335,6 +342,14 @@ func c13ChunkReader(r *core.Result, c core.Case) {
 		return
 	}
 	defer rr.Close()
+	if ck := rng.Intn(9); ck < 3 {
+		rr.SetCache(mkCache(ck, 1+rng.Intn(6), len(f.Blocks)))
+		cfg += fmt.Sprintf(" cache-kind=%d", ck)
+		r.Count("chunkreader_cases_with_cache", 1)
+		if rng.Intn(2) == 0 {
+			io.Copy(io.Discard, rr) // to the end of the data first
+		}
+	}
 	// Move the reader somewhere else first (the ChunkReader must seek).
 	if rng.Intn(2) == 0 {
 		io.CopyN(io.Discard, rr, rng.Int63n(total+1))
